@@ -34,7 +34,15 @@ ASSUMPTIONS = [
     "timeout (pingBudget = pings sent at 0.5 s, 1.5 s, ... before the timeout); afterwards it answers every ping",
     "fewer than 119 ResponsePending frames per request (MAX_N_PENDING, C04's subject); client timing as in UDSClient: timeout "
     "2 s, retry_wait 0.2 s * 2^i, pending loop gives up after 40 * 0.5 s, pings every 0.5 s with 0.5 s timeout; the scanner's "
-    "--sleep is 0",
+    "--sleep is 0; no cyclic tester-present worker runs during the scan (the client mutex between the worker and the requests "
+    "of the scan is C05's subject)",
+    "scans with a database (the real DBHandler on a sqlite file under /var/tmp, removed afterwards): the session_transition rows "
+    "of the scan run are read back from the file after the scan has disconnected; one scan into a fresh database and two or "
+    "three consecutive scans of the same target (other depth / skip / thorough / hooks / reset, sometimes an ECU whose graph has "
+    "changed in between) into the same file; the table model (Model/SessionDb.lean) has the session_transition rows and fresh "
+    "run ids only - address / run_meta / scan_result tables and the exchange log belong to C11; what "
+    "DBHandler.get_session_transition returns to a later ECU.set_session(use_db=True) when several runs stored different "
+    "sequences for one session (the first row of any run) is not judged",
     "slow session changes: a positive reply announced with ResponsePending arrives less than 20 s (PENDING_GIVEUP_MS, the 40 reads of "
     "0.5 s of the client's pending loop) after the last pending frame: transparent (scan_slow_pending_transparent; generated gaps "
     "0.3 / 3.9 / 5.3 / 12.2 / 19.1 s of virtual time on graph and security-locked ECUs, session changes only); from 20 s on the "
@@ -742,9 +750,10 @@ def judge_stored(case, impl, spec):
         out.append(("tie:stored-rows:earlier-runs-changed", f"rows of earlier runs before the scan {impl['stored_before']}, "
                                                             f"afterwards {impl['stored_others']}", False))
     if model_rows := spec.get("model_stored"):
-        if model_rows["mine"] != impl["stored"] or model_rows["others"] != len(impl["stored_others"]):
-            out.append(("tie:stored-rows:model", f"database model: rows of the run {model_rows['mine']}, {model_rows['others']} rows "
-                                                 f"of other runs; sqlite file: {impl['stored']}, {len(impl['stored_others'])}", False))
+        if (model_rows["mine"] != impl["stored"] or model_rows["others"] != len(impl["stored_others"])
+                or model_rows["run"] != impl["run_id"]):
+            out.append(("tie:stored-rows:model", f"database model: run {model_rows['run']}, rows of the run {model_rows['mine']}, {model_rows['others']} rows "
+                                                 f"of other runs; sqlite file: run {impl['run_id']}, {impl['stored']}, {len(impl['stored_others'])}", False))
     return out
 
 
@@ -1274,6 +1283,21 @@ def evaluate(ctx, cases, procs=1):
     dbk = [k for k, i in enumerate(impls) if i.get("stored") is not None]
     for k, l in zip(dbk, ctx.lean([spec_line(eff_case(cases[k]), stored_as_report(impls[k])) for k in dbk])):
         specs[k]["stored_bad"] = parse_spec(l)["bad"]
+    # ... and the database model (Model/SessionDb.lean): the scans of the history and this scan run into one table, the rows
+    # of the last run read back
+    dbg = [k for k in dbk if "fam" not in cases[k] and "vecu" not in cases[k]]
+    lines, last = [], []
+    for k in dbg:
+        lines.append("dbreset")
+        for h in list(cases[k].get("db_history") or ()) + [cases[k]]:
+            lines.append("db" + scan_line(h))
+        last.append(len(lines) - 1)
+    outs = ctx.lean(lines) if lines else []
+    for k, n in zip(dbg, last):
+        kv = dict(w.split("=", 1) for w in outs[n].split(" ") if "=" in w)
+        mine = [] if kv["mine"] == "-" else [(int(e.split("@")[0]), [int(x) for x in e.split("@")[1].split(".")] if e.split("@")[1] != "-" else [])
+                                             for e in kv["mine"].split(";")]
+        specs[k]["model_stored"] = {"mine": mine, "others": int(kv["others"]), "run": int(kv["run"])}
     # the graph ECU as a stateful oracle: `scanS` over `graphOracle` must be `scan` (scan_simulates_graph), line by line
     twin = [k for k, c in enumerate(cases) if "fam" not in c and not c.get("start")]
     for k, l in zip(twin, ctx.lean([scans_line(cases[k]) for k in twin])):
@@ -1347,7 +1371,8 @@ def case_key(case):
     hist = ""
     if case.get("db_history") is not None:
         hist = ";db=" + ("fresh" if not case["db_history"] else "|".join(
-            f"d{h['depth']},skip={_csv(h['skip'])},th={int(h['thorough'])},hk={int(h['hooks'])}" for h in case["db_history"]))
+            f"d{h['depth']},skip={_csv(h['skip'])},th={int(h['thorough'])},hk={int(h['hooks'])}"
+            + ("" if h["g"] == case["g"] else ",g=" + _edges_str(h)) for h in case["db_history"]))
     return (f"d={case['depth']};skip={_csv(case['skip'])};th={int(case['thorough'])};rs={case['reset']};"
             f"hk={int(case['hooks'])};mr={case['max_retry']};rst={case['rst']};g={_edges_str(case)}"
             + _hook_fields(case).replace(" ", ";") + hist
@@ -1355,30 +1380,47 @@ def case_key(case):
 
 
 def db_sequence(rng):
-    """the same ECU scanned two or three times into one database with different depth / skip / thorough: every scan is a
-    case of its own whose `db_history` lists the scans that filled the database before it"""
-    shape = rng.choice(["chain", "chain", "deep-only", "density", "islands"])
+    """the same target scanned two or three times into one database with different depth / skip / thorough - deep first,
+    shallow first (a session only identified by the first run is entered by a later one) or any order - and sometimes an
+    ECU whose behaviour has changed between the runs (software update, another variant behind the same address): every scan
+    is a case of its own whose `db_history` lists the scans that filled the database before it"""
+    shape = rng.choice(["chain", "chain", "deep-only", "deep-only", "density", "islands"])
     g, ids = rand_graph(rng, shape)
     g = decorate(rng, g, ids, True)
+    if rng.random() < 0.5:   # guarded entries: refused from one session (conditionsNotCorrect, securityAccessDenied ..), open from another
+        for b in rng.sample(ids[1:], min(len(ids) - 1, rng.randint(1, 2))):
+            a = rng.choice([x for x in ids if x != b])
+            if g.get((a, b)) != "p" or rng.random() < 0.5:
+                g[(a, b)] = rng.choice(["n34", "n34", "n51", "n49"])
     gh, pre, post = None, (), ()
     if rng.random() < 0.25:
         g, gh, pre, post = hook_class(rng, g, ids)
-    common = dict(max_retry=rng.choice([0, 0, 1]), rst="p", gh=gh, pre=pre, post=post)
-    scans = [mk_case(g, rng.choice([3, 4, 5]), [], hooks=bool(pre) or rng.random() < 0.2, **common)]
-    for _ in range(rng.randint(1, 2)):
-        kind = rng.random()
-        depth = rng.choice([1, 1, 2, 2, 3])
+    common = dict(max_retry=rng.choice([0, 0, 1]), rst="p", pre=pre, post=post)
+    order = rng.choice(["deep-first", "shallow-first", "shallow-first", "any"])
+    n = rng.randint(2, 3)
+    depths = sorted(rng.sample([1, 2, 3, 4, 5], n)) if order != "any" else [rng.choice([1, 2, 3, 4]) for _ in range(n)]
+    if order == "deep-first":
+        depths.reverse()
+    scans = []
+    for i, depth in enumerate(depths):
+        if i and rng.random() < 0.3:   # the ECU behaves differently from now on
+            g = dict(g)
+            for _ in range(rng.randint(1, 2)):
+                a, b = rng.choice(ids), rng.choice(ids[1:])
+                g[(a, b)] = rng.choice(["p", "n34", "n18", "n126"]) if g.get((a, b)) != "p" else rng.choice(["n34", "n18"])
+            if gh is not None:
+                gh = {**g, **{k: v for k, v in gh.items() if g.get(k) == "n34"}}
         skip = []
-        if kind < 0.5 and len(ids) > 2:
+        if i and rng.random() < 0.35 and len(ids) > 2:
             skip = rng.sample(ids[1:], rng.randint(1, min(2, len(ids) - 1)))
-        scans.append(mk_case(g, depth, skip, thorough=rng.random() < 0.2, hooks=rng.random() < 0.3,
-                             reset=rng.choice([None, None, 1]), **common))
+        scans.append(mk_case(g, depth, skip, thorough=rng.random() < 0.2, hooks=bool(pre) and i == 0 or rng.random() < 0.25,
+                             reset=rng.choice([None, None, None, 1]) if i else None, gh=gh, **common))
     out = []
     for i, c in enumerate(scans):
         if c["thorough"] and n_walks(c, 40) > 40:
             c["thorough"] = False
         out.append({**c, "db_history": [dict(h) for h in scans[:i]]})
-    return out, "db:" + shape
+    return out, f"db:{order}:{shape}"
 
 
 GENERIC = ("skipped-session-requested:default-session:stack-recovery",)
